@@ -96,7 +96,7 @@ func (p *Pike) Start(waitAddrs []string, d time.Duration) (time.Duration, error)
 	cmd := exec.Command(p.Bin, args...)
 	cmd.Dir = p.Dir
 	cmd.Env = append(os.Environ(), "VERIF_CLOCK_FILE="+p.ClockFile, "VERIF_EVENT_FILE="+p.EventFile, "VERIF_POINTS="+p.Points, "VERIF_SEED="+strconv.FormatInt(p.Seed, 10),
-		"GORACE=halt_on_error=0 log_path="+filepath.Join(p.Dir, "race"))
+		"GORACE=halt_on_error=0 exitcode=0 log_path="+filepath.Join(p.Dir, "race"))
 	cmd.Env = append(cmd.Env, p.ExtraEnv...)
 	errf, _ := os.OpenFile(filepath.Join(p.Dir, "stderr.log"), os.O_CREATE|os.O_APPEND|os.O_WRONLY, 0644)
 	cmd.Stdout, cmd.Stderr = errf, errf
